@@ -17,6 +17,26 @@ LITERALS = ["0", "-1", "9223372036854775807", "-9223372036854775808", "007", "1.
             "[null]", "[[1], [2, 3], []]", '{"": 1}', '{"a b": 1, "a\\"b": 2}']
 
 
+def _precise_floats(n=60):
+    """floats whose shortest decimal form has 16-17 significant digits, written with an
+    exponent (so that the parser reads them exactly and the printer has to reproduce them)"""
+    import random
+    rnd = random.Random(20260924)
+    out = []
+    while len(out) < n:
+        x = rnd.uniform(0.1, 1) * 10 ** rnd.randint(-8, 12)
+        r = repr(x)
+        if len(r.replace(".", "").replace("-", "").lstrip("0")) >= 16 and "e" not in r:
+            m, e = ("%.16e" % x).split("e")
+            if float(m + "e" + e) == x:
+                out.append(m.rstrip("0") + "e" + str(int(e)))
+    return out
+
+
+LITERALS += _precise_floats() + ["9.402388407028053e2", "940.2388407028053", "0.30000000000000004", "123456789.12345678",
+                                 "1.7976931348623157e308", "4.9e-324", "2.2250738585072014e-308"]
+
+
 def literal_program(i, lit):
     return ("stage S(\n    in  map x,\n    out int y,\n    src py \"s\",\n)\n\n"
             "call S(\n    x = {\"v\": %s},\n)\n" % lit)
@@ -43,6 +63,13 @@ EMPTY_CLAUSES = [
 ]
 
 MODIFIER_SYNTAXES = [
+    # keyword modifiers and a using block on the same call
+    "stage S(\n    in  int x,\n    out int y,\n    src py \"s\",\n)\n\npipeline P(\n    in  int x,\n    in  bool skip,\n    out int y,\n)\n{\n"
+    "    call volatile S as A(\n        x = self.x,\n    ) using (\n        local = true,\n    )\n\n"
+    "    call local volatile S as B(\n        x = self.x,\n    ) using (\n        disabled = self.skip,\n    )\n\n"
+    "    call preflight S as C(\n        x = self.x,\n    ) using (\n        local = true,\n    )\n\n"
+    "    call local S as D(\n        x = B.y,\n    ) using (\n        volatile = true,\n    )\n\n"
+    "    return (\n        y = D.y,\n    )\n}\n",
     "stage S(\n    in  int x,\n    out int y,\n    src py \"s\",\n)\n\npipeline P(\n    in  int x,\n    out int y,\n)\n{\n"
     "    call local preflight S as A(\n        x = self.x,\n    )\n\n    call volatile S as B(\n        x = self.x,\n    )\n\n"
     "    call S as C(\n        x = B.y,\n    ) using (\n        local    = true,\n        volatile = true,\n        disabled = self.x,\n    )\n\n"
